@@ -442,3 +442,71 @@ Definition decode_string_field (v : cv) : option str :=
   | CNil => Some []
   | _ => None
   end.
+
+(* target field of Go type int: an expandedValue yields its Value (nil -> zero value); int from int only.
+   A float64 is truncated by mapstructure (decodeInt, kind Float32): not modelled, the outer [None]. *)
+Definition decode_int_field (v : cv) : option (option Z) :=
+  let plain (x : cv) :=
+    match x with
+    | CNil => Some (Some 0%Z)
+    | CInt z => Some (Some z)
+    | CFloat _ => None
+    | _ => Some None
+    end in
+  match v with
+  | CExp x _ => plain x
+  | _ => plain v
+  end.
+
+(* strings.Split(s, sep) for a one-character separator *)
+Fixpoint split_on (c : ascii) (s : str) : list str :=
+  match s with
+  | [] => [[]]
+  | x :: s' =>
+      if Ascii.eqb x c then [] :: split_on c s'
+      else match split_on c s' with
+           | h :: t => (x :: h) :: t
+           | [] => [[x]]
+           end
+  end.
+
+Fixpoint all_some {A} (l : list (option A)) : option (list A) :=
+  match l with
+  | [] => Some []
+  | Some a :: r => match all_some r with Some r' => Some (a :: r') | None => None end
+  | None :: _ => None
+  end.
+
+(* target field of Go type []string.  useExpandValue: an expandedValue yields its Value (not sanitised:
+   its elements meet the hook again when they are decoded as strings), any other data is
+   sanitizeToStr'ed because []string is a "stringy structure"; StringToSliceHookFunc(",") splits a
+   string; decodeSlice takes a list element by element and refuses anything else. *)
+Definition decode_strlist_data (d : cv) : option (list str) :=
+  match d with
+  | CNil => Some []
+  | CStr s => Some (match s with [] => [] | _ => split_on ","%char s end)
+  | CList l => all_some (map decode_string_field l)
+  | _ => None
+  end.
+Definition decode_strlist_field (v : cv) : option (list str) :=
+  match v with
+  | CExp x _ => decode_strlist_data x
+  | _ => decode_strlist_data (sanitize_to_str v)
+  end.
+
+(* target field of Go type map[string]string *)
+Definition decode_strmap_data (d : cv) : option (list (str * str)) :=
+  match d with
+  | CNil => Some []
+  | CMap m =>
+      match all_some (map (fun kv : str * cv => decode_string_field (snd kv)) m) with
+      | Some vs => Some (combine (map fst m) vs)
+      | None => None
+      end
+  | _ => None
+  end.
+Definition decode_strmap_field (v : cv) : option (list (str * str)) :=
+  match v with
+  | CExp x _ => decode_strmap_data x
+  | _ => decode_strmap_data (sanitize_to_str v)
+  end.
